@@ -7,7 +7,7 @@
 (*                                                                         *)
 (* raw = [g (geometry), st (status byte), fi (FSInfo), fats, dirs]          *)
 (***************************************************************************)
-EXTENDS Integers, Sequences, FiniteSets, SequencesExt, TLC, TreeModel, Fat, DirSlots
+EXTENDS Integers, Sequences, FiniteSets, SequencesExt, TLC, TreeModel, Fat, DirSlots, Stamps
 
 (* ---------------- derived tables ---------------- *)
 FatView(raw, k) ==
@@ -24,13 +24,16 @@ EntryKeys(oem, e) == (IF e.cls = "valid" THEN {Key(e.long)} ELSE {}) \cup {Key(O
 EntryAt(ents, i) == ents[CHOOSE j \in 1..Len(ents) : ents[j].i = i]
 
 RECURSIVE DirPath(_, _, _, _, _)
-DirPath(raw, ents, oem, k, fuel) ==
+DirPath(raw, ents, oem, k, fuel) ==      \* path of names (as a reader shows them) of directory k
    IF raw.dirs[k].par = -1 \/ fuel = 0 THEN <<>>
    ELSE LET pk == DirIdx(raw, raw.dirs[k].par)
             pe == EntryAt(ents[pk], raw.dirs[k].ps)
-        IN Append(DirPath(raw, ents, oem, pk, fuel - 1), Key(EntryName(oem, pe)))
+        IN Append(DirPath(raw, ents, oem, pk, fuel - 1), EntryName(oem, pe))
 
-\* Derive(raw): [F, ents, rows, paths]; rows = one record per live entry (no volume labels, no dot entries)
+\* Derive(raw): tables computed once per projection.
+\*   rows  = one record per live entry (no volume labels, no dot entries): [dk, e, name, p, w]
+\*   facts = {[p, k, d]}  the tree a reader must see (Abs(raw)), comparable with TreeModel!TreeFacts
+\*   meta  = {<<p, size, first cluster>>}      times = {<<p, ct, mt, ad>>} files / {<<p, ct>>} directories
 Derive(raw, oem) ==
    LET nd == Len(raw.dirs)
        ents == TLCEval([k \in 1..nd |-> Entries(raw.dirs[k].sl)])
@@ -40,9 +43,17 @@ Derive(raw, oem) ==
                  LET live == SelectSeq(ents[k], LAMBDA e : ~e.vol /\ e.dot = 0 /\ ~AmbiguousAttr(e.s)) IN
                  [j \in 1..Len(live) |->
                     LET e == live[j] nm == EntryName(oem, e) IN
-                    [dk |-> k, e |-> e, name |-> nm, p |-> Append(paths[k], Key(nm)),
+                    [dk |-> k, e |-> e, name |-> nm, p |-> Append(paths[k], nm),
+                     key |-> Key(nm), skey |-> Key(OemDecode(oem, ShortDisplay(e.s.n))),
                      w |-> ChainOf(F, IF e.s.cl < 0 THEN 1 ELSE e.s.cl)]]]))
-   IN [F |-> F, ents |-> ents, paths |-> paths, rows |-> rows]
+       n == Len(rows)
+   IN [F |-> F, ents |-> ents, paths |-> paths, rows |-> rows,
+       facts |-> {[p |-> rows[i].p, k |-> IF rows[i].e.dir THEN "d" ELSE "f",
+                   d |-> IF rows[i].e.dir THEN <<>> ELSE (IF "fd" \in DOMAIN rows[i].e.s THEN rows[i].e.s.fd ELSE <<>>)] : i \in 1..n},
+       meta |-> {<<rows[i].p, rows[i].e.s.sz, rows[i].e.s.cl>> : i \in 1..n},
+       times |-> {IF rows[i].e.dir THEN <<rows[i].p, DecodeCreated(rows[i].e.s.ct)>>
+                  ELSE <<rows[i].p, DecodeCreated(rows[i].e.s.ct), DecodeModified(rows[i].e.s.mt), DecodeDate(rows[i].e.s.ad)>> : i \in 1..n},
+       kinds |-> [k \in 1..nd |-> [i \in 1..Len(raw.dirs[k].sl) |-> raw.dirs[k].sl[i].t]]]
 
 CsCells(raw) == raw.g.csc                        \* cluster size in cells
 ClustersFor(raw, cells) == (cells + CsCells(raw) - 1) \div CsCells(raw)
@@ -95,14 +106,19 @@ StructViol(raw, D, lag, lagCells) ==
         \A k \in 1..nd : \A j \in 1..Len(D.ents[k]) :
            D.ents[k][j].dot # 0 => (raw.dirs[k].par # -1 /\ D.ents[k][j].i = D.ents[k][j].dot))
    \cup Tag("C03.after_end", \A k \in 1..nd : raw.dirs[k].tz)
-   \cup Tag("C03.lfn_orphan", \A k \in 1..nd : NoOrphanRuns(raw.dirs[k].sl))
-   \cup Tag("C03.lfn_order", \A k \in 1..nd : RunsOrdered(raw.dirs[k].sl))
-   \cup Tag("C03.lfn_chk", \A k \in 1..nd : RunsChecksummed(raw.dirs[k].sl))
-   \cup Tag("C03.lfn_pad", \A k \in 1..nd : RunsPadded(raw.dirs[k].sl))
+   \cup (IF \A k \in 1..nd : NoOrphanRuns(raw.dirs[k].sl)
+                              /\ \A j \in 1..Len(D.ents[k]) :
+                                    LET e == D.ents[k][j] IN
+                                    e.cls = "none" \/ (e.cls = "valid" /\ e.i - e.first = (Len(e.long) + 12) \div 13)
+         THEN {}     \* every run is complete, ordered, checksummed, regularly and minimally padded
+         ELSE   Tag("C03.lfn_orphan", \A k \in 1..nd : NoOrphanRuns(raw.dirs[k].sl))
+           \cup Tag("C03.lfn_order", \A k \in 1..nd : RunsOrdered(raw.dirs[k].sl))
+           \cup Tag("C03.lfn_chk", \A k \in 1..nd : RunsChecksummed(raw.dirs[k].sl))
+           \cup Tag("C03.lfn_pad", \A k \in 1..nd : RunsPadded(raw.dirs[k].sl)))
    \cup Tag("C03.dup_long",
         \A k \in 1..nd :
            LET rs == SelectSeq(rows, LAMBDA r : r.dk = k) IN
-           Cardinality({rs[i].p : i \in 1..Len(rs)}) = Len(rs))
+           Cardinality({rs[i].key : i \in 1..Len(rs)}) = Len(rs))
    \cup Tag("C03.dup_short",
         \A k \in 1..nd :
            LET rs == SelectSeq(rows, LAMBDA r : r.dk = k) IN
@@ -111,16 +127,13 @@ StructViol(raw, D, lag, lagCells) ==
         \A k \in 1..nd :
            LET rs == SelectSeq(rows, LAMBDA r : r.dk = k) IN
            \A i, j \in 1..Len(rs) : i # j =>
-              Key(OemDecode("lossy", ShortDisplay(rs[j].e.s.n))) # Last(rs[i].p) \/ rs[j].e.s.n = rs[i].e.s.n)
+              rs[i].e.cls # "valid" \/ rs[j].skey # rs[i].key)
 
 (***************************************************************************)
 (* Abs(raw): the tree a reader must see, as facts comparable with          *)
 (* TreeModel!TreeFacts.                                                     *)
 (***************************************************************************)
-AbsFacts(D) ==
-   {[p |-> D.rows[i].p, k |-> IF D.rows[i].e.dir THEN "d" ELSE "f", name |-> D.rows[i].name,
-     d |-> IF D.rows[i].e.dir THEN <<>> ELSE (IF "fd" \in DOMAIN D.rows[i].e.s THEN D.rows[i].e.s.fd ELSE <<>>)]
-    : i \in 1..Len(D.rows)}
+AbsFacts(D) == D.facts
 
 (***************************************************************************)
 (* C05 space contract                                                      *)
